@@ -208,7 +208,10 @@ def families(args):
     cases.append(lookup_case(0, 2))
     for lx in ('simple_identifier_impl', 'c_identifier_impl'):
         cases.append(lexer_case(lx))
-    return [ppprop.Family('reserved-words', cases, None, ('kw',), custom_work=lambda c: c.fn())]
+    import lexcases, gprod
+    lw = lexcases.work_factory(gprod.productions(E.prog()))
+    fam2 = ppprop.Family('bounded-lexical', [c for c in lexcases.cases(args.tier) if c.prop == 'C13'], None, ('lex',), custom_work=lw)
+    return [ppprop.Family('reserved-words', cases, None, ('kw',), custom_work=lambda c: c.fn()), fam2]
 
 
 def main():
